@@ -90,6 +90,9 @@ void Server::incomingConnection(qintptr socketDescriptor)
 
         // Wait until encryption is complete before processing the socket
         connect(socket, &QSslSocket::encrypted, [this, socket]() {
+            // From now on the HTTP socket owns the connection
+            disconnect(socket, static_cast<void(QAbstractSocket::*)(QAbstractSocket::SocketError)>(&QAbstractSocket::error),
+                socket, &QSslSocket::deleteLater);
             d->process(socket);
         });
 
